@@ -36,3 +36,20 @@ Proof. repeat split; vm_compute; reflexivity. Qed.
 Example C11_chain : let rho := bind (bind (fun _ => None) "A"%string 10) "B"%string 21 in
   aeval rho (EAdd (EMul (EImm (FId "B"%string)) [(OpMul, EImm (FNum 2))]) [(OpPlus, EMul (EImm (FId "A"%string)) [])]) = Some 52.
 Proof. reflexivity. Qed.
+
+(** chains: any number of EQU definitions, each evaluated where it stands and free to use the names defined before it,
+    are together as transparent as one: evaluating e under all the bindings equals evaluating e with every definition
+    inlined (latest first) under none of them *)
+Theorem C11_chain_transparent : forall defs rho rho' e, bind_all rho defs = Some rho' ->
+  aeval rho' e = aeval rho (subst_all defs e).
+Proof. exact equ_chain_transparent. Qed.
+Print Assumptions C11_chain_transparent.
+
+Example C11_chain3 :
+  let defs := [("A"%string, EImm (FNum 10));
+               ("B"%string, EAdd (EMul (EImm (FId "A"%string)) [(OpMul, EImm (FNum 2))]) [(OpPlus, EMul (EImm (FNum 1)) [])]);
+               ("C"%string, EAdd (EMul (EImm (FId "B"%string)) []) [(OpMinus, EMul (EImm (FId "A"%string)) [])])] in
+  let e := EMul (EImm (FId "C"%string)) [(OpMul, EImm (FId "B"%string))] in
+  (exists rho', bind_all (fun _ => None) defs = Some rho' /\ aeval rho' e = Some 231)
+  /\ aeval (fun _ => None) (subst_all defs e) = Some 231.
+Proof. split; [eexists; split; [reflexivity|reflexivity] | reflexivity]. Qed.
